@@ -87,6 +87,9 @@ type VC struct {
 	revealed map[string]bool
 	grounding map[string]bool
 	binder   int
+	usedContracts map[string]bool
+	usedLemmas    []*Lemma
+	proved   map[string][]string
 	trace    []string
 }
 
@@ -167,6 +170,17 @@ func (vc *VC) oblige(kind string, tags []string, goal string) *Obl {
 		o.Status = "discharged"
 		o.Backend = "trivial"
 	}
+	// the same goal already established under the same (or no) path condition
+	if vc.proved == nil {
+		vc.proved = map[string][]string{}
+	}
+	for _, c := range vc.proved[goal] {
+		if c == vc.st.Cond || c == "true" {
+			o.Status = "discharged"
+			o.Backend = "trivial"
+		}
+	}
+	vc.proved[goal] = append(vc.proved[goal], vc.st.Cond)
 	vc.obls = append(vc.obls, o)
 	// after checking, the fact may be assumed on this path
 	vc.assume(goal)
